@@ -14,7 +14,8 @@ EXPLANATION = (
     "assigned an unhashable container; the unix-socket prefix, its slice offset, the location separator and the bracket rule "
     "agree between printer and parser, the printer uses constant format strings only and emits the fields verbatim, ports are parsed with int(); strings are stored "
     "by the name server exactly as given; for every field whose truthiness the "
-    "printer uses to choose the text form the parser rejects the falsy value; the name server stores text and re-parses on lookup."
+    "printer uses to choose the text form the parser rejects the falsy value; the name server stores text and re-parses on lookup. "
+    'Also decided: a blank PYROMETA tag set is rejected; tags are joined with the separator they are split on; the sqlite storage writes the given uri on every path. '
 )
 
 U = "Pyro5.core.URI"
@@ -230,6 +231,15 @@ def run(ctx, R, tier):
                 rejects.append(n)
     R.check(bool(rejects), "C19-R4", "presence|metadata-tags", "a PYROMETA tag set that would print as the empty string is rejected by the parser", init.loc(ts),
             "after `%s` nothing rejects a blank tag set: \"PYROMETA:,\" is accepted with the tags {\"\"} and prints as \"PYROMETA:\", which the parser refuses" % unparse(ts, 70))
+
+    # PYROMETA tags: printed with the separator they are split on (the parser's regex allows no blanks inside the object part)
+    joins = [c for c in walk_no_nested(st_.node) if isinstance(c, ast.Call) and isinstance(c.func, ast.Attribute) and c.func.attr == "join" and isinstance(c.func.value, ast.Constant)]
+    splits = [c for c in walk_no_nested(init.node) if isinstance(c, ast.Call) and isinstance(c.func, ast.Attribute) and c.func.attr == "split" and c.args and isinstance(c.args[0], ast.Constant)
+              and unparse(c.func.value) == "self.object"]
+    ok = len(joins) == 1 and len(splits) == 1 and joins[0].func.value.value == splits[0].args[0].value
+    R.check(ok, "C19-R3", "PYROMETA|tag-separator", "the printer joins the tags with exactly the separator the parser splits on", st_.loc(joins[0]) if joins else st_.loc(),
+            "tags are joined with %r but split on %r: the printed form of a PYROMETA uri with several tags is not accepted back (the object part may not contain blanks)" % (
+                joins[0].func.value.value if joins else None, splits[0].args[0].value if splits else None))
 
     # ---------------------------------------------------------------- R5
     reg = ctx.fn("Pyro5.nameserver.NameServer.register")
